@@ -16,9 +16,13 @@ OBLIGATIONS = [
     "KafVerif.C28.by_id_from_snapshot",
     "KafVerif.C28.topology_kept",
     "KafVerif.C28.store_view_keeps",
+    "KafVerif.C28.reply_depends_only_on_own_request",
+    "KafVerif.C28.coalescing_sound_if_key_determines_load",
+    "KafVerif.C28.names_key_coalescing_violates",
     "KafVerif.C28.old_violates",
 ]
 ASSUMPTIONS = [
+    "concurrency: overlapping Metadata requests are exercised with the first request held inside store.Metadata until the other 1-3 are in flight (or 60 ms); other interleavings (e.g. overlap only after the store read) are not enumerated",
     "the metadata store is InMemoryStore.Metadata/filterTopics (EtcdStore.Metadata delegates to it); snapshot topics carry a name (a nil name pointer panics inside the store, outside this property)",
     "kmsg codec and its field/version table (`wire` in the model) are trusted; the harness compares what a kmsg client decodes from the reply bytes",
     "topic ids: literal ids are generated with the upper 8 bytes zero; metadata.TopicIDForName (SHA-1 prefix the store assigns to a snapshot topic without id) is modelled as an injective constructor disjoint from the literal ids",
@@ -101,6 +105,40 @@ def gen_request(rng, names, tids):
     return v, ",".join(ents)
 
 
+def gen_par(rng, names, tids):
+    """k = 2..4 Metadata requests that overlap inside handleMetadata (the harness holds the store read of the
+    first one open until all are in flight).  Mostly 'confusable' batches: same form and same number of entries
+    but different ids / names, same names with different ids, all vs empty, plus free mixes."""
+    k = rng.range(2, 4)
+    style = rng.below(6)
+    items = []
+    ids = list(dict.fromkeys(tids)) or ["7"]
+    nms = list(dict.fromkeys(names)) or ["missing"]
+    n = rng.range(1, 2)
+    for i in range(k):
+        if style == 0:      # by id, nil names, same entry count, different ids
+            v = rng.choice([10, 11, 12])
+            ents = ["~@%s" % ids[(i + j) % len(ids)] if rng.chance(4, 5) else "~@%d" % rng.range(31, 60) for j in range(n)]
+        elif style == 1:    # by id with the SAME name attached, different ids
+            v = rng.choice([10, 12])
+            ents = ["%s@%s" % (nms[0], ids[(i + j) % len(ids)]) for j in range(n)]
+        elif style == 2:    # by name, same entry count, different names
+            v = rng.choice(VERSIONS)
+            ents = ["%s@0" % (nms[(i + j) % len(nms)] if rng.chance(4, 5) else "missing%d" % i) for j in range(n)]
+        elif style == 3:    # by name vs by id of the same topic, all vs empty
+            v = rng.choice([10, 12])
+            ents = [rng.choice(["%s@0" % nms[i % len(nms)], "~@%s" % ids[i % len(ids)], "all", "empty"])]
+            if ents[0] in ("all", "empty"):
+                items.append("%d:%s" % (v, ents[0]))
+                continue
+        else:               # free mix of all request forms
+            v, r = gen_request(rng, names, tids)
+            items.append("%d:%s" % (v, r))
+            continue
+        items.append("%d:%s" % (v, ",".join(ents)))
+    return "par " + " ".join(items)
+
+
 def gen_case(rng, nreq):
     ops = ["cfg %s %d" % (rng.choice(["proxy.example.com", "p", "^", "10.1.2.3"]), rng.choice([9092, 1, 65535, 19092]))]
     snap, names, tids = gen_snapshot(rng)
@@ -108,6 +146,8 @@ def gen_case(rng, nreq):
     for _ in range(nreq):
         v, r = gen_request(rng, names, tids)
         ops.append("meta %d %s" % (v, r))
+    for _ in range(2):
+        ops.append(gen_par(rng, names, tids))
     v, r = gen_request(rng, names, tids)
     ops.append("nrmeta %d %s" % (v, r))
     ops.append("coord %d" % rng.choice([3, 3, 0, 1, 2]))
@@ -116,7 +156,7 @@ def gen_case(rng, nreq):
 
 
 def is_reply_op(op):
-    return op.split()[0] in ("meta", "nrmeta", "coord", "nrcoord")
+    return op.split()[0] in ("meta", "nrmeta", "coord", "nrcoord", "par")
 
 
 def run_impl(ck, binary, ops, tag):
@@ -164,13 +204,15 @@ def examine(ck, ops, impl, model, verdicts, hunting=False):
             continue
         kind = o.split()[0]
         ck.count("op_" + kind)
+        if kind == "par":
+            ck.count("concurrent_requests", len(o.split()) - 1)
         if kind in ("meta", "nrmeta"):
             ck.count("v%s" % o.split()[1])
             r = o.split()[2]
             form = r if r in ("all", "empty") else ("by-id" if any(not e.endswith("@0") for e in r.split(",")) else "by-name")
             ck.count("req_" + form)
         ctx = context_ops(ops, i)
-        nontriv = kind == "meta" and "topics=-" not in impl[i] and impl[i].startswith("meta ")
+        nontriv = kind in ("meta", "par") and "topics=-" not in impl[i] and impl[i].startswith(kind + " ")
         ck.case(tuple(ctx), nontrivial=nontriv, sample={"ops": ctx, "impl": impl[i]})
         if impl[i] in ("panic", "err", "undecodable", "bad-op"):
             ck.count("impl_" + impl[i])
@@ -192,7 +234,9 @@ def run(ck):
     binary = bins["h"]
     ncases = 150 if ck.quick() else 1500
     ck.cov["rule"] = ("cases = (advertised address, generated snapshot, request) triples from VERIF_SEED; requests: all / empty / "
-                      "by name / by id / mixed at Metadata versions 0-12, not-ready Metadata, FindCoordinator; a case is "
+                      "by name / by id / mixed at Metadata versions 0-12, not-ready Metadata, FindCoordinator, and batches of "
+                      "2-4 OVERLAPPING Metadata requests (store read gated until all are in flight; each reply checked against "
+                      "its own request); a case is "
                       "non-trivial when the reply lists at least one topic; distinct = distinct (cfg, snapshot, request) triples")
     ops = []
     import glob, os
